@@ -18,7 +18,7 @@ var sentinelErrors = map[string]bool{
 }
 
 func (x *Exec) typeTag(t types.Type) *Term {
-	k := types.TypeString(t, nil)
+	k := strings.ReplaceAll(types.TypeString(t, nil), "byte", "uint8")
 	if id, ok := x.typeTags[k]; ok {
 		return IntLit(id)
 	}
